@@ -12,9 +12,17 @@ hand-made cells and seeded explorer scenarios - run through the real Provisioner
   G_C13_Requests              (c) requests between pods + the daemonsets that certainly run (min over options) and pods + every
                                   tolerating daemonset counted once
   G_C13_Template              (d) labels (template labels, nodepool, nodeclass), taints, startup taints, hash of the pool as stored
-                                  NOW + hash version, no simulation-only key among labels / requirements
+                                  NOW + hash version, no simulation-only key among labels / requirements (incl. the placeholder
+                                  hostname requirement FinalizeScheduling removes); judged on EVERY created NodeClaim, also on those the
+                                  real static provisioning controller builds for a static pool (StaticCreated), where in addition the
+                                  NodePool object handed to the reconciler and the stored one must be unchanged (StaticPool)
 
-The closed model behind these guards is Weights.tla (invariants Inv_C13_*; spec mutations truncMin, truncMinOrder, ovhPerPod, ovhNone, staleHash,
+Scenario extensions for the seeded regressions of round 2: same-named daemonsets in different namespaces that split the catalog into
+overhead groups (arch / gen / it / zone), static pools (replicas 2-3) with template labels, and `options.deadlineAfter = k` (the context
+handed to Provisioner.Schedule expires, synchronously, right after the k-th placement; the NodeClaims of the interrupted pass are still
+created, as the provisioner does).
+
+The closed model behind these guards is Weights.tla (invariants Inv_C13_*; spec mutations truncMin, truncMinOrder, ovhPerPod, ovhNone, ovhByName, staleHash, hashSecond, noFinalize,
 simKeys, noStartup rejected in checks/C19.py's model stage and again here)."""
 import os
 import random
@@ -25,7 +33,7 @@ from checks import weights_common as wc
 import vlib
 
 SCOPE = {"quick": dict(replay=200, explore=500), "thorough": dict(replay=4000, explore=8000)}
-C13_WEAK = ("truncMin", "truncMinOrder", "ovhPerPod", "ovhNone", "staleHash", "simKeys", "noStartup")
+C13_WEAK = ("truncMin", "truncMinOrder", "ovhPerPod", "ovhNone", "ovhByName", "staleHash", "hashSecond", "simKeys", "noStartup", "noFinalize")
 
 
 def stage(run):
